@@ -109,6 +109,24 @@ mod imp {
         x.to_vec().titer().vsorted_unique_idx(if last { Keep::Last } else { Keep::First }).collect()
     }
 
+    /// symbols -> durations, ascending: sub-microsecond neighbours, a month part, durations beyond 292 years
+    pub const TD_TEXT: [&str; 7] = ["-150000d", "0s", "1000ns", "1200ns", "110000d", "150000d", "150000d1ns"];
+    pub fn unique_idx_td(x: &[X], last: bool, opt_view: bool) -> Vec<usize> {
+        use tevec::prelude::TimeDelta;
+        let v: Vec<TimeDelta> = x.iter().map(|a| a.map_or(TimeDelta::nat(), |i| TimeDelta::parse(TD_TEXT[i as usize]).unwrap())).collect();
+        let keep = if last { Keep::Last } else { Keep::First };
+        if opt_view {
+            v.opt().titer().vsorted_unique_idx(keep).collect()
+        } else {
+            v.titer().vsorted_unique_idx(keep).collect()
+        }
+    }
+    pub fn unique_vals_td(x: &[X]) -> Vec<X> {
+        use tevec::prelude::TimeDelta;
+        let v: Vec<TimeDelta> = x.iter().map(|a| a.map_or(TimeDelta::nat(), |i| TimeDelta::parse(TD_TEXT[i as usize]).unwrap())).collect();
+        let texts: Vec<TimeDelta> = TD_TEXT.iter().map(|t| TimeDelta::parse(t).unwrap()).collect();
+        v.titer().vsorted_unique().map(|d| texts.iter().position(|t| t.months == d.months && t.inner == d.inner).map(|i| i as f64)).collect()
+    }
     pub fn unique_idx_f64(x: &[X], last: bool) -> Vec<usize> {
         enc_vec::<f64>(x).titer().vsorted_unique_idx(if last { Keep::Last } else { Keep::First }).collect()
     }
@@ -211,6 +229,55 @@ fn check_cut_null_labels(ctx: &mut Ctx) {
                         });
                     }
                 }
+            }
+        }
+    }
+}
+
+/// runs of an element type whose equality is hand-written (durations): sub-microsecond neighbours and durations
+/// beyond 292 years are distinct values, hence distinct runs
+fn check_unique_durations(max_len: usize, ctx: &mut Ctx) {
+    let fam = "unique-durations";
+    let k = TD_TEXT.len();
+    let mut bodies: Vec<Vec<u8>> = vec![];
+    for_words_upto(k, max_len, &mut |w| {
+        if w.windows(2).all(|p| p[0] <= p[1]) || w.windows(2).all(|p| p[0] >= p[1]) {
+            bodies.push(w.to_vec());
+        }
+    });
+    for body in &bodies {
+        for (head, tail) in [(0usize, 0usize), (1, 0), (0, 2), (1, 1)] {
+            let mut x: Vec<X> = vec![None; head];
+            x.extend(body.iter().map(|v| Some(*v as f64)));
+            x.extend(vec![None; tail]);
+            ctx.states += 1;
+            ctx.fam(fam).states += 1;
+            ctx.transitions += x.len() as u64;
+            ctx.nontrivial(fam, hash_bytes(format!("{body:?}{head}{tail}").as_bytes()));
+            for opt_view in [false, true] {
+                for last in [false, true] {
+                    let want = unique_model(&x, last);
+                    let got = catch(|| unique_idx_td(&x, last, opt_view));
+                    ctx.eval(fam, hash_bytes(format!("{got:?}").as_bytes()));
+                    if matches!(&got, Outcome::Ok(g) if *g == want) {
+                        ctx.traces += 1;
+                    } else {
+                        ctx.violation(Violation {
+                            entry: format!("vsorted_unique_idx(Keep::{}) on TimeDelta", if last { "Last" } else { "First" }),
+                            finding: None,
+                            size: x.len(),
+                            case: json!({"family": fam, "elem": if opt_view { "TimeDelta (option view)" } else { "TimeDelta" }, "series": json_word(&x), "durations": TD_TEXT}),
+                            expected: format!("{want:?}"),
+                            got: format!("{got:?}"),
+                        });
+                    }
+                }
+            }
+            let want: Vec<X> = unique_model(&x, false).iter().map(|i| x[*i]).collect();
+            let got = catch(|| unique_vals_td(&x));
+            ctx.eval(fam, hash_bytes(format!("{got:?}").as_bytes()));
+            if !matches!(&got, Outcome::Ok(g) if *g == want) {
+                ctx.violation(Violation { entry: "vsorted_unique on TimeDelta".into(), finding: None, size: x.len(), case: json!({"family": fam, "elem": "TimeDelta", "series": json_word(&x), "durations": TD_TEXT}), expected: show_word(&want), got: format!("{got:?}") });
             }
         }
     }
@@ -458,6 +525,8 @@ fn main() {
         });
         if stored["case"]["family"] == "cut" {
             check_cut(&mut ctx);
+        } else if stored["case"]["family"] == "unique-durations" {
+            check_unique_durations(run.pick(4, 5), &mut ctx);
         } else if stored["case"]["family"] == "cut-null-labels" {
             check_cut_null_labels(&mut ctx);
         } else if ["cut-many-edges", "unique-long-runs", "translation-bigint"].contains(&stored["case"]["family"].as_str().unwrap_or("")) {
@@ -470,6 +539,7 @@ fn main() {
     check_cut(&mut ctx);
     check_cut_null_labels(&mut ctx);
     check_unique(max_len, &mut ctx);
+    check_unique_durations(run.pick(4, 5), &mut ctx);
     check_large(!run.quick(), &mut ctx);
     let meta = Meta {
         rule: "cut: the whole value alphabet {null, MIN, -3, -1, 0, 1, 2, 5, 7, MAX} (f64 and Option<i32>) x every ascending subset of the edge pool {-1,0,2,5,7} x label counts 0..=6 x right x add_bounds; oracle = the unique interval containing the value (outer edges at -inf/+inf with open bounds), Err for no interval, call-level Err for a label-count mismatch, never a panic. unique: every non-decreasing and non-increasing word over {0,1,2,3} (all run-length compositions) with null blocks of 0..2 at head and tail, Keep::First / Keep::Last / vsorted_unique; oracle = first / last index of each maximal run. Beyond the small scope: 17..257 consecutive edges with values on and between every edge; 1..3 runs with lengths from {1,2,255,256,257}; the translation relation for i64 values and edges around +-2^60. Non-trivial = distinct parameter points / words. Also labels that are nulls themselves at every position (cut-null-labels: f64, Option<i32>, String labels; DESIGN 5.15).".into(),
